@@ -245,6 +245,20 @@ CHECKS['C15'] = dict(
     ],
 )
 
+CHECKS['C14'] = dict(
+    level='exploration',
+    rule='generated workloads of 2-8 threads, each a list of up to 7 operations from {create own VM (9 flag sets incl. HARD_AES, JIT, SECURE, v2) over the shared cache, hash, pipelined batch, destroy, '
+         'randomx_init_dataset on a disjoint generated range of the shared (sparse) dataset from the shared cache (interpreted or compiled initialiser, ranges of 1..1016 items, unaligned starts, the last items), '
+         'private cache alloc/init/re-key/release, generated yields/spins}; all threads start together. Oracle: every digest and sampled dataset item equals the sequential result; the ThreadSanitizer build '
+         '(happens-before detection, independent of the observed timing) reports no data race during the workload. Non-trivial: workload with >= 2 threads and >= 2 different operation kinds on shared objects',
+    assumptions=COMMON_ASSUME + ['stores made by JIT-emitted code are not instrumented (byte-equality oracle only there)', 'TSan sees races between accesses within its history window; liveness is out of reach',
+                                 'interleavings are produced by the OS scheduler over generated yields, not enumerated'],
+    stages=[
+        dict(name='tsan', harness=H('c14', ['harness/c14_threads.cpp'], variant='tsan'), workers={'quick': 8, 'thorough': 8}, env={'VERIF_CASE_TIMEOUT': '900'},
+             plan={'quick': 'workload=40:30', 'thorough': 'workload=900:60,workload_owncache=100:30'}),
+    ],
+)
+
 C02_AUX = os.path.join(os.path.dirname(os.path.abspath(__file__)), 'build', 'run', 'c02-digests')
 
 
